@@ -187,6 +187,25 @@ func runG11(r *Repo, rep *Report) {
 						ok = true
 					}
 				case *ast.Ident:
+					// name := accepting[i] — an element of a vetted list bound to a local with that one definition
+					var defs []ast.Expr
+					ast.Inspect(fi.Decl.Body, func(m ast.Node) bool {
+						if as, isAs := m.(*ast.AssignStmt); isAs && len(as.Lhs) == len(as.Rhs) {
+							for k, l := range as.Lhs {
+								if lid, isL := l.(*ast.Ident); isL && objOf(info, lid) == info.Uses[x] {
+									defs = append(defs, as.Rhs[k])
+								}
+							}
+						}
+						return true
+					})
+					if len(defs) == 1 {
+						if ix, isIx := ast.Unparen(defs[0]).(*ast.IndexExpr); isIx {
+							if id, isID := ast.Unparen(ix.X).(*ast.Ident); isID && vetted(info.Uses[id]) {
+								ok = true
+							}
+						}
+					}
 					// the value variable of a range over a vetted list
 					ast.Inspect(fi.Decl.Body, func(m ast.Node) bool {
 						rs, isR := m.(*ast.RangeStmt)
@@ -304,7 +323,8 @@ func runG11(r *Repo, rep *Report) {
 		// shape: a single range loop whose body returns false under a negated predicate, then return true
 		okShape := false
 		if len(fi.Decl.Body.List) == 2 {
-			rs, isR := fi.Decl.Body.List[0].(*ast.RangeStmt)
+			wl, isR := asWalkLoop(info, fi.Decl.Body.List[0])
+			rs := wl
 			ret, isRet := fi.Decl.Body.List[1].(*ast.ReturnStmt)
 			if isR && isRet && len(ret.Results) == 1 && len(rs.Body.List) == 1 {
 				if tv := info.Types[ret.Results[0]]; tv.Value != nil && tv.Value.String() == "true" {
